@@ -124,5 +124,4 @@ try:
         json.dump(meta, open(os.path.join(dst, "meta.json"), "w"), indent=1)
 finally:
     subprocess.call(["git", "-C", "/repo", "worktree", "remove", "--force", wt])
-    subprocess.call("rm -f /verif/replays/*/new-*.json", shell=True)
 print("VALID" if ok else "INVALID")
